@@ -4,6 +4,8 @@ From Coq.Strings Require Import Byte.
 From Gopki.Model Require Import Bytes Base64 Pem Der Asn1 Text Algs Glue Pkcs8 Ext Rdn Time X509 Generate HashView Dir Plan Run Ops Cli Merge Validate Current.
 From Gopki.Spec Require Import RegenSpec DirInv MergeSpec ValidateSpec X509Spec ExtSpec AdmissionSpec PolicySpec.
 From Gopki.Proofs Require Import RunProofs ExtProofs PlanProofs WfProofs X509Proofs DerProofs Asn1Proofs TimeRangeProofs RdnProofs GenerateProofs ValidateProofs TimeProofs AlgsProofs Base64Proofs PolicyProofs MergeProofs CliProofs OpsProofs FaultProofs HistoryProofs HashViewProofs Pkcs8Proofs RecoverProofs PemTornProofs AdmissionProofs PemProofs GlueProofs.
+From Gopki.Model Require Import Effective.
+From Gopki.Proofs Require Import EffectiveProofs.
 Import ListNotations.
 
 (* every valid calendar date written YYYY-MM-DD is read as that year, month and day *)
@@ -29,3 +31,12 @@ Theorem C04_time_roundtrip :
   forall (c : civil) (t : tlv), valid_civil c -> der_time c = Some t -> dec_time t = Some c.
 Proof. exact time_roundtrip. Qed.
 Print Assumptions C04_time_roundtrip.
+
+(* a certificate with no validity block of its own takes its profile's, otherwise its own wins *)
+Theorem C04_own_validity_wins_iff_set :
+  forall (pr : profile) (c c' : cert_cfg),
+    effective (Some pr) c = Some c' ->
+    cc_validity c' = if validity_is_set (cc_validity c) then cc_validity c
+                     else if validity_is_set (pr_validity pr) then pr_validity pr else cc_validity c.
+Proof. exact effective_validity. Qed.
+Print Assumptions C04_own_validity_wins_iff_set.
